@@ -11,7 +11,7 @@ CW = [0, 0, 0, 0.5, 1, 2, 5, 8, 1.3, 0.3, 12]
 HOLD = [0, 0, 0, 0, 0.3, 1, 2, 0.5]
 
 
-def build(t, nice_only=False, kinds=("continuous", "slotted"), holds=False):
+def build(t, nice_only=False, kinds=("continuous", "slotted"), holds=False, cholds=False, ccancels=False):
     kind_i, g_i, cap, d_i, acc, n_items, pmode, pw, cmode, cw = t
     kind = kinds[kind_i % len(kinds)]
     if kind == "continuous":
@@ -40,14 +40,34 @@ def build(t, nice_only=False, kinds=("continuous", "slotted"), holds=False):
     if holds and (pmode // 4) % 2 == 1:
         # loading time: the producer holds its granted admission for a while before it puts the item
         case["hold"] = [HOLD[(pw[i % len(pw)] + cw[i % len(cw)]) % len(HOLD)] for i in range(n)]
+    if cholds and (cmode // 5) % 2 == 1 and n_items % 4 == 0:
+        # collection time: the destination is handed the head (granted retrieval) and takes it off the belt only later
+        case["chold"] = [HOLD[(pw[(i + 1) % len(pw)] + 3 * cw[i % len(cw)]) % len(HOLD)] for i in range(n)]
+    if (cholds or ccancels) and (cmode // 5) % 2 == 1 and n_items % 4 in (1, 2):
+        # a fan-in destination that picked another edge: some granted retrievals are withdrawn in the instant of the grant
+        # (extra consumer requests, so that every item can still be taken)
+        # value = 1 + number of zero-delay kernel hops between the grant and the withdrawal (a node resumes through an any_of)
+        flags = [1 + (cw[i % len(cw)] + i) % 3 if (cw[i % len(cw)] + pw[(i + 2) % len(pw)]) % 3 == 0 else 0 for i in range(n)]
+        cons2, fl2 = [], []
+        for i in range(n):
+            if flags[i]:
+                cons2.append(cons[i])
+                fl2.append(flags[i])
+                cons2.append(CW[(cw[i % len(cw)] + 1) % len(CW)])
+                fl2.append(0)
+            else:
+                cons2.append(cons[i])
+                fl2.append(0)
+        case["consumer"] = cons2
+        case["ccancel"] = fl2
     return case
 
 
-def cases(nice_only=False, kinds=("continuous", "slotted"), holds=False):
+def cases(nice_only=False, kinds=("continuous", "slotted"), holds=False, cholds=False, ccancels=False):
     return st.tuples(st.integers(0, 1), st.integers(0, 63), st.integers(0, 11), st.integers(0, 7), st.integers(0, 1),
                      st.integers(0, 17), st.integers(0, 7), st.lists(st.integers(0, 23), min_size=4, max_size=10),
                      st.integers(0, 9), st.lists(st.integers(0, 21), min_size=4, max_size=10)).map(
-        lambda t: build(t, nice_only, kinds, holds))
+        lambda t: build(t, nice_only, kinds, holds, cholds, ccancels))
 
 
 def shrink_candidates(case):
@@ -59,6 +79,11 @@ def shrink_candidates(case):
             if case.get("hold"):
                 d2["hold"] = case["hold"][:i] + case["hold"][i + 1:]
             yield d2
+        if case.get("chold") and any(case["chold"]):
+            yield dict(case, chold=[0] * len(case["chold"]))
+            for i, w in enumerate(case["chold"]):
+                if w:
+                    yield dict(case, chold=case["chold"][:i] + [0] + case["chold"][i + 1:])
         d2 = dict(case, producer=p[:-1], consumer=c[:-1] if len(c) >= n else c)
         if case.get("hold"):
             d2["hold"] = case["hold"][:-1]
